@@ -224,7 +224,7 @@ func getCorpus(id int) *sCorpus {
 		c.Repos = append(c.Repos, r)
 	}
 	// layout
-	layout := rng.IntN(4)
+	layout := rng.IntN(5)
 	// the shard images are shared between worker processes through the per-tree
 	// image cache (building them costs several seconds of ShardBuilder set-up)
 	cacheFile := ""
@@ -235,7 +235,7 @@ func getCorpus(id int) *sCorpus {
 			var shards []*sImage
 			if json.Unmarshal(bs, &shards) == nil && len(shards) > 0 {
 				c.Shards = shards
-				c.Split = layout == 2
+				c.Split = layout == 2 || layout == 4
 				corpusCache[id] = c
 				return c
 			}
@@ -269,6 +269,14 @@ func getCorpus(id int) *sCorpus {
 		used[0] = true
 		c.Shards = append(c.Shards, buildCompound([]*sImage{simple[1], simple[2]}))
 		used[1], used[2] = true, true
+	case 4: // repo 0 split over two shards and one compound of three: more repositories than shards
+		r := c.Repos[0]
+		h := len(r.Docs) / 2
+		c.Shards = append(c.Shards, buildSimple(r, r.Docs[:h], 0), buildSimple(r, r.Docs[h:], 1))
+		c.Split = true
+		used[0] = true
+		c.Shards = append(c.Shards, buildCompound([]*sImage{simple[1], simple[2], simple[3]}))
+		used[1], used[2], used[3] = true, true, true
 	case 3: // two compounds
 		c.Shards = append(c.Shards, buildCompound([]*sImage{simple[0], simple[1]}))
 		c.Shards = append(c.Shards, buildCompound([]*sImage{simple[2], simple[3]}))
@@ -389,6 +397,29 @@ func genQuery(tp *simrt.Tape, c *sCorpus, typeRepo bool) query.Q {
 	case 5:
 		return &query.Or{Children: []query.Q{&query.And{Children: []query.Q{genRepoAtom(tp, c), genContentAtom(tp, c)}}, genContentAtom(tp, c)}}
 	case 6:
+		if typeRepo && tp.Gen(3) == 0 {
+			// two type:repo predicates in one query whose children differ only inside a
+			// repository set (their String() forms abbreviate such sets)
+			var a, b []uint32
+			for i, r := range c.Repos {
+				if i%2 == 0 {
+					a = append(a, r.Repo.ID)
+				} else {
+					b = append(b, r.Repo.ID)
+				}
+			}
+			if len(a) > len(b) {
+				a = a[:len(b)]
+			}
+			atom := genContentAtom(tp, c)
+			mk := func(ids []uint32) query.Q {
+				return &query.Type{Type: query.TypeRepo, Child: &query.And{Children: []query.Q{&query.RepoIDs{Repos: roaring.BitmapOf(ids...)}, atom}}}
+			}
+			return &query.Or{Children: []query.Q{
+				&query.And{Children: []query.Q{mk(a), genContentAtom(tp, c)}},
+				&query.And{Children: []query.Q{mk(b), genContentAtom(tp, c)}},
+			}}
+		}
 		if typeRepo {
 			return &query.And{Children: []query.Q{&query.Type{Type: query.TypeRepo, Child: genContentAtom(tp, c)}, genContentQ(tp, c, 1)}}
 		}
